@@ -287,12 +287,12 @@ MANIFEST_TEXT = {
     },
     "C07": {
         "text": "Lean theorems about the model of the canonical-code builder and the lossless header-phase validator (see the Props file: each violation class named in the property is a rejection lemma of the model; the code tables equal the specification's). The whole-stream claim 'accepted => the reference decodes the header phase' is evaluated on the real code against libwebp 1.3.1 (executed, not modelled) over specification-synthesised streams with each rule violated in turn, encoder output and its mutations; the model must agree with webpsan on every payload.",
-        "note": "Partial by nature: relative to libwebp as an executed oracle. The check found defect F3 (simple prefix codes: stream-order assignment, a symbol named twice read as a 1-bit code, symbols outside the alphabet accepted), repaired in /repo. Trusted: see evidence.trusted_base.",
+        "note": "Partial by nature: relative to libwebp as an executed oracle. The check found defect F3 (simple prefix codes: stream-order assignment, a symbol named twice read as a 1-bit code, symbols outside the alphabet accepted) and F10 (frame alpha validated against the canvas dimensions: a stream the reference rejects for the frame accepted), both repaired in /repo. Trusted: see evidence.trusted_base.",
         "technique": "Lean 4 proof of rejection lemmas and table obligations + three-way differential check (webpsan, Lean model, libwebp header-phase decoder)",
     },
     "C08": {
         "text": "Converse of C07 on the same streams: whatever libwebp's header-phase decoder accepts must be accepted by webpsan, except for the two documented strictness choices, which the driver recognises by re-running the Lean model with exactly those two checks relaxed. Lean theorems: the specification's corner cases (single-leaf codes consume zero bits, a two-symbol simple code naming one symbol twice is that single-leaf code, every transform order is accepted by the transform loop) hold of the model; the container side is C06.",
-        "note": "Partial by nature (executed reference). The check found F3 (see C07) and F2 (sub-canvas lossless frames, see C06). Trusted: see evidence.trusted_base.",
+        "note": "Partial by nature (executed reference). The check found F3 (see C07), F2 (sub-canvas lossless frames, see C06) and F10 (lossless alpha of a sub-canvas animation frame validated against the canvas dimensions; repaired in /repo 41e7bf8). Trusted: see evidence.trusted_base.",
         "technique": "Lean 4 proof of acceptance corner cases + three-way differential check incl. libwebp encoder output",
     },
     "C16": {
